@@ -63,7 +63,7 @@ def run_tlc(ctx, module_path, cfg_text=None, cfg_path=None, env=None, workers=No
     cmd = ["timeout", str(timeout), "java", "-XX:+UseParallelGC"]
     if heap:
         cmd.append("-Xmx" + heap)
-    cmd += ["-cp", "/opt/veriftools/tla/tla2tools.jar:/opt/veriftools/tla/CommunityModules-deps.jar", "tlc2.TLC",
+    cmd += ["-cp", "/opt/veriftools/tla/tla2tools.jar:/opt/veriftools/tla/CommunityModules-deps.jar", "tlc2.TLC", "-noGenerateSpecTE",
             "-workers", str(workers or NCPU), "-metadir", meta, "-config", cfg_path]
     if simulate:
         cmd += ["-simulate", simulate]
@@ -113,6 +113,7 @@ def model_check(ctx, module_rel, cfg_rel=None, cfg_text=None, expect_violation=N
     elif expect_violation is None and r["violation"]:
         log("  TLC: %s %s VIOLATES %s" % (module_rel, cfg_rel, r["violation"]))
         rec["trace_tail"] = r["out"][-4000:]
+        ctx.machinery_errors.append("design-level model %s %s unexpectedly violates %s (the model does not read the code: this is a specification error, not a property violation)" % (module_rel, cfg_rel, r["violation"]))
     elif expect_violation is not None and not r["violation"]:
         ctx.machinery_errors.append("non-vacuity: %s %s did not produce the expected violation %s" % (module_rel, cfg_rel, expect_violation))
     log("  model %-40s %-28s %9d distinct %6.1fs %s" % (module_rel, os.path.basename(cfg_rel or "gen"), r["distinct"], r["wall_s"], ("violation: " + r["violation"]) if r["violation"] else "ok"))
